@@ -12,16 +12,16 @@ type ExecEntry struct {
 // Process is a simulated OS process: one task, its ends of the stdio pipes,
 // an exit status. Exiting closes its pipe ends, as the kernel would.
 type Process struct {
-	Pid     int
-	Name    string
-	Path    string
-	Args    []string
-	Stdin   *PipeReader // nil => /dev/null
-	Stdout  *PipeWriter // nil => /dev/null
-	Exited  bool
-	Status  int
-	Reaped  bool
-	Task    *Task
+	Pid    int
+	Name   string
+	Path   string
+	Args   []string
+	Stdin  *PipeReader // nil => /dev/null
+	Stdout *PipeWriter // nil => /dev/null
+	Exited bool
+	Status int
+	Reaped bool
+	Task   *Task
 	// Helper: the process leaves a descendant behind (a daemon it started) that inherited its
 	// standard error and never exits.
 	Helper  bool
